@@ -8,6 +8,7 @@ import (
 	"io"
 	"net/url"
 	"path/filepath"
+	"sort"
 	"strings"
 
 	"github.com/valyala/fastjson"
@@ -365,15 +366,11 @@ func irisEqual(i1, i2 IRI, checkScheme bool) bool {
 		if len(uqv) != len(uwqv) {
 			return false
 		}
-		for _, uqvv := range uqv {
-			eq := false
-			for _, uwqvv := range uwqv {
-				if uwqvv == uqvv {
-					eq = true
-					continue
-				}
-			}
-			if !eq {
+		// NOTE: the values of a key are compared as multisets, so that the comparison is symmetric
+		sort.Strings(uqv)
+		sort.Strings(uwqv)
+		for j, uqvv := range uqv {
+			if uwqv[j] != uqvv {
 				return false
 			}
 		}
